@@ -11,11 +11,14 @@ set_option linter.unusedVariables false
 
 /-- a relation between the state before and after that is closed under the primitive steps of the
 removal/search groups -/
-structure StRel (Q : St → St → Prop) : Prop where
+structure StRelL (Q : St → St → Prop) : Prop where
   refl : ∀ s, Q s s
   trans : ∀ {a b c}, Q a b → Q b c → Q a c
-  idx : ∀ s ri ti, Q s { s with ri := ri, ti := ti }
   erase : ∀ s id, Q s { s with facts := amErase s.facts id, store := amErase s.store id }
+
+/-- … and under index updates (the indexed state) -/
+structure StRel (Q : St → St → Prop) : Prop extends StRelL Q where
+  idx : ∀ s ri ti, Q s { s with ri := ri, ti := ti }
 
 theorem St.unindexRule_ri {s s1 : St} {id : String} {rule : Obj} (h : s.unindexRule id rule = .ok s1) :
     ∃ ri, s1 = { s with ri := ri } := by
@@ -250,7 +253,7 @@ theorem iFindRules_rel (s : St) (ev : Obj) (now : Int) : Q s (s.iFindRules ev no
 end Indexed
 
 section Linear
-variable {Q : St → St → Prop} (hQ : StRel Q)
+variable {Q : St → St → Prop} (hQ : StRelL Q)
 include hQ
 
 theorem lrem_group (fuel : Nat) :
@@ -607,25 +610,25 @@ theorem St.rem_shrinks (s : St) (id : String) (now : Int) : Shrinks s (s.rem id 
   unfold St.rem
   cases s.kind
   · exact irem_rel shrinks_stRel _ _ _ _
-  · exact lrem_rel shrinks_stRel _ _ _ _
+  · exact lrem_rel shrinks_stRel.toStRelL _ _ _ _
 
 theorem St.get_shrinks (s : St) (id : String) (now : Int) : Shrinks s (s.get id now).1 := by
   unfold St.get
   cases s.kind
   · exact iGet_rel shrinks_stRel _ _ _
-  · exact lGet_rel shrinks_stRel _ _ _
+  · exact lGet_rel shrinks_stRel.toStRelL _ _ _
 
 theorem St.search_shrinks (s : St) (p : Obj) (now : Int) : Shrinks s (s.search p now).1 := by
   unfold St.search
   cases s.kind
   · exact isearch_rel shrinks_stRel _ _ _ _
-  · exact lsearch_rel shrinks_stRel _ _ _ _
+  · exact lsearch_rel shrinks_stRel.toStRelL _ _ _ _
 
 theorem St.findRules_shrinks (s : St) (ev : Obj) (now : Int) : Shrinks s (s.findRules ev now).1 := by
   unfold St.findRules
   cases s.kind
   · exact iFindRules_rel shrinks_stRel _ _ _
-  · exact lFindRules_rel shrinks_stRel _ _ _
+  · exact lFindRules_rel shrinks_stRel.toStRelL _ _ _
 
 theorem SameData.storeOK {s s' : St} (h : SameData s s') (ok : StoreOK s) : StoreOK s' := by
   obtain ⟨hf, hs, _⟩ := h
@@ -730,12 +733,12 @@ theorem St.lrem_ack {s : St} {id : String} {now : Int} {s' : St} {b : Bool} {fue
     cases h
     exact ⟨amGet_amErase_self _ _, amGet_amErase_self _ _⟩
   · simp only [hv, if_false, Bool.false_eq_true] at h
-    have q1 := (lrem_group shrinks_stRel fuel).2.2.1 { kind := s.kind, facts := amErase s.facts id, store := amErase s.store id, ri := s.ri, ti := s.ti, fresh := s.fresh } [("deleteWith", J.arr [J.str id])] now
+    have q1 := (lrem_group shrinks_stRel.toStRelL fuel).2.2.1 { kind := s.kind, facts := amErase s.facts id, store := amErase s.store id, ri := s.ri, ti := s.ti, fresh := s.fresh } [("deleteWith", J.arr [J.str id])] now
     split at h
     · cases h
     · rename_i s2 found heq
       rw [heq] at q1
-      have q2 := (lrem_group shrinks_stRel fuel).2.1 s2 (List.filter (fun x => x != id) (List.map (fun x => x.fst) found)) now
+      have q2 := (lrem_group shrinks_stRel.toStRelL fuel).2.1 s2 (List.filter (fun x => x != id) (List.map (fun x => x.fst) found)) now
       split at h
       · cases h
       · rename_i s3 u heq3
